@@ -14,6 +14,8 @@ import (
 	"crypto/x509"
 	"fmt"
 	"net"
+	"os"
+	"strings"
 	"sync"
 	"testing"
 	"time"
@@ -37,7 +39,14 @@ func sameKey(a bcrypto.PubKey, id *keys.Identity) bool {
 	return a != nil && a.Equals(id.Pub)
 }
 
-func evalChain(r *vf.Run, b *builtChain, pool []*keys.Identity, verifier *p2ptls.Identity, expKind string) {
+// histCtx places a chain evaluation inside a history of earlier evaluations in
+// the same process (nil = the chain is new to the process and so are all its parts).
+type histCtx struct {
+	pos   string   // position class of the step in its history
+	steps []string // the steps presented so far, this one last
+}
+
+func evalChain(r *vf.Run, b *builtChain, pool []*keys.Identity, verifier *p2ptls.Identity, expKind string, hc *histCtx) {
 	K := pool[b.Spec.K]
 	var expected peer.ID
 	switch expKind {
@@ -47,10 +56,19 @@ func evalChain(r *vf.Run, b *builtChain, pool []*keys.Identity, verifier *p2ptls
 		expected = pool[b.Spec.Other].ID
 	}
 	sig := fmt.Sprintf("%s|%s|crit=%v|pos=%d|exp=%s", b.Spec.Variant, b.Spec.CertKey, b.Spec.Critical, b.Spec.Pos, expKind)
+	vkey := b.Spec.Variant
+	if hc != nil {
+		sig += "|hist=" + hc.pos
+		vkey += "@" + hc.pos
+	}
 	wit := func(extra map[string]any) map[string]any {
 		w := b.witness()
 		w["expected_peer_constraint"] = expKind
 		w["identity_K"] = K.ID.String()
+		if hc != nil {
+			w["history_position"] = hc.pos
+			w["chains_presented_to_the_process_so_far"] = append([]string(nil), hc.steps...)
+		}
 		for k, v := range extra {
 			w[k] = v
 		}
@@ -76,15 +94,15 @@ func evalChain(r *vf.Run, b *builtChain, pool []*keys.Identity, verifier *p2ptls
 			r.Count("PubKeyFromCertChain_calls", 1)
 			switch {
 			case panicked:
-				r.Violation("chain:PubKeyFromCertChain:panic:"+b.Spec.Variant, "PubKeyFromCertChain panicked: "+pd, wit(nil))
+				r.Violation("chain:PubKeyFromCertChain:panic:"+vkey, "PubKeyFromCertChain panicked: "+pd, wit(nil))
 			case err == nil && b.Class == mustReject:
-				r.Violation("chain:PubKeyFromCertChain:accepted-malformed:"+b.Spec.Variant,
+				r.Violation("chain:PubKeyFromCertChain:accepted-malformed:"+vkey,
 					"PubKeyFromCertChain accepted a chain that is not a single self-signed certificate with a valid key binding: "+b.Why, wit(nil))
 			case err == nil && !sameKey(key, K):
-				r.Violation("chain:PubKeyFromCertChain:wrong-key:"+b.Spec.Variant,
+				r.Violation("chain:PubKeyFromCertChain:wrong-key:"+vkey,
 					"PubKeyFromCertChain returned a key other than the one that signed the binding", wit(nil))
 			case err != nil && b.Class == mustAccept:
-				r.Violation("chain:PubKeyFromCertChain:rejected-wellformed:"+b.Spec.Variant,
+				r.Violation("chain:PubKeyFromCertChain:rejected-wellformed:"+vkey,
 					"PubKeyFromCertChain refused a well-formed chain: "+err.Error(), wit(nil))
 			}
 			if err == nil {
@@ -110,21 +128,21 @@ func evalChain(r *vf.Run, b *builtChain, pool []*keys.Identity, verifier *p2ptls
 	rejectDemanded := b.Class == mustReject || expKind == "other"
 	switch {
 	case panicked:
-		r.Violation("chain:VerifyPeerCertificate:panic:"+b.Spec.Variant, "VerifyPeerCertificate panicked: "+pd, wit(nil))
+		r.Violation("chain:VerifyPeerCertificate:panic:"+vkey, "VerifyPeerCertificate panicked: "+pd, wit(nil))
 	case err == nil && b.Class == mustReject:
-		r.Violation("chain:VerifyPeerCertificate:accepted-malformed:"+b.Spec.Variant,
+		r.Violation("chain:VerifyPeerCertificate:accepted-malformed:"+vkey,
 			"the handshake verifier accepted a chain that is not a single self-signed certificate with a valid key binding: "+b.Why, wit(nil))
 	case err == nil && expKind == "other":
-		r.Violation("chain:VerifyPeerCertificate:accepted-wrong-peer:"+b.Spec.Variant,
+		r.Violation("chain:VerifyPeerCertificate:accepted-wrong-peer:"+vkey,
 			"the handshake verifier accepted peer K although the caller required a different peer", wit(nil))
 	case err == nil && !sameKey(key, K):
-		r.Violation("chain:VerifyPeerCertificate:wrong-key:"+b.Spec.Variant,
+		r.Violation("chain:VerifyPeerCertificate:wrong-key:"+vkey,
 			"the handshake verifier accepted but delivered no key / a key other than the one that signed the binding", wit(nil))
 	case err != nil && key != nil:
-		r.Violation("chain:VerifyPeerCertificate:key-on-error:"+b.Spec.Variant,
+		r.Violation("chain:VerifyPeerCertificate:key-on-error:"+vkey,
 			"the handshake verifier refused the chain but still delivered a public key", wit(nil))
 	case err != nil && acceptDemanded:
-		r.Violation("chain:VerifyPeerCertificate:rejected-wellformed:"+b.Spec.Variant,
+		r.Violation("chain:VerifyPeerCertificate:rejected-wellformed:"+vkey,
 			"the handshake verifier refused a well-formed chain of the expected peer: "+err.Error(), wit(nil))
 	}
 	_ = rejectDemanded
@@ -159,6 +177,7 @@ func hostileTLS(c *tls.Certificate) *tls.Config {
 type tenv struct {
 	r    *vf.Run
 	ctx  context.Context
+	lctx context.Context // ctx carrying the case's pprof label
 	n    *g5net.SwitchNet
 	pool []*keys.Identity
 	name string
@@ -342,12 +361,17 @@ func (e *tenv) inbound(L *g5net.Remote, home string, b *builtChain, pool []*keys
 
 // honest L dials address "A" where a hostile raw listener presents a crafted chain.
 func (e *tenv) outbound(L *g5net.Remote, b *builtChain, pool []*keys.Identity) (complete bool) {
-	K := pool[b.Spec.K]
-	claimed := K.ID
+	claimed := pool[b.Spec.K].ID
 	if b.Spec.Variant == "ext-embeds-other-key" {
 		claimed = pool[b.Spec.Other].ID
 	}
-	const svc = "A"
+	return e.outboundAt(L, b, pool, "A", "H-home", claimed)
+}
+
+// outboundAt: the hostile listener lives at hhome and serves svc; the honest
+// dialer requires peer `claimed` ("" = no constraint).
+func (e *tenv) outboundAt(L *g5net.Remote, b *builtChain, pool []*keys.Identity, svc, hhome string, claimed peer.ID) (complete bool) {
+	K := pool[b.Spec.K]
 	e.mu.Lock()
 	if b.Class == mustAccept {
 		e.truth[svc] = K.ID
@@ -355,7 +379,7 @@ func (e *tenv) outbound(L *g5net.Remote, b *builtChain, pool []*keys.Identity) (
 		e.truth[svc] = ""
 	}
 	e.mu.Unlock()
-	ep := e.n.NewEndpoint("H-home")
+	ep := e.n.NewEndpoint(hhome)
 	ln, err := quic.Listen(ep, hostileTLS(b.TLS), quicConf())
 	if err != nil {
 		e.r.Inconclusive(e.name + ": hostile listen: " + err.Error())
@@ -372,7 +396,7 @@ func (e *tenv) outbound(L *g5net.Remote, b *builtChain, pool []*keys.Identity) (
 		}
 	}()
 	e.n.Serve(svc, ep)
-	e.logf("honest %s dials %s (claimed peer %s); hostile listener presents: %s", L.EP.LocalAddr(), svc, claimed.String(), b.Why)
+	e.logf("honest %s dials %s (required peer %q); hostile listener presents: %s", L.EP.LocalAddr(), svc, claimed.String(), b.Why)
 	dctx, cancel := context.WithTimeout(e.ctx, watchdog)
 	defer cancel()
 	lnk, _, err := L.Tpt.DialPeer(dctx, claimed, svc)
@@ -450,6 +474,11 @@ func transportCases(r *vf.Run, pool []*keys.Identity, nVariantRounds int) []tcas
 		}
 		out = append(out, requiredPeerCases(pool, round)...)
 		out = append(out, mixedCase(r, pool, round, mk))
+		for i := 0; i < 3; i++ {
+			out = append(out, historyCase(r, pool, round*3+i))
+		}
+		out = append(out, overlapCases(pool, round, []string{"pconn", "conn"}, []string{"overlapping"})...)
+		out = append(out, overlapCases(pool, round, []string{"pconn"}, []string{"sequential"})...)
 	}
 	return out
 }
@@ -683,7 +712,11 @@ func runTransportCase(r *vf.Run, pool []*keys.Identity, tc tcase) {
 	defer cancel()
 	e := &tenv{r: r, ctx: ctx, n: g5net.NewSwitchNet(), pool: pool, name: tc.name, truth: map[string]peer.ID{}, recs: map[string]*g5net.Recorder{}}
 	r.Begin("transport case " + tc.name)
-	complete := tc.run(e)
+	t0 := time.Now()
+	defer func() { fmt.Printf("case %-90s %6.2fs\n", tc.name, time.Since(t0).Seconds()) }() // diagnostics only
+	var complete bool
+	// every goroutine started by the case inherits the label (goroutine-state conditions)
+	g5net.WithLabel(ctx, tc.name, func(lctx context.Context) { e.lctx = lctx; complete = tc.run(e) })
 	nl := e.checkLinks()
 	r.Distinct("transport_case_kinds", e.kind())
 	r.Case("T|"+tc.name, complete)
@@ -746,18 +779,41 @@ func TestCheck(t *testing.T) {
 		}
 	}
 	r.Begin(fmt.Sprintf("%d chain specs", len(specs)))
+	tC := time.Now()
+	defer func() { _ = tC }()
 	for i, s := range specs {
 		b := build(s, pool, rng)
 		for _, ek := range []string{"any", "K", "other"} {
-			evalChain(r, b, pool, verifier, ek)
+			evalChain(r, b, pool, verifier, ek, nil)
 		}
 		if i < 3 {
 			r.Sample(map[string]any{"chain_spec": s, "class": b.Class.String(), "construction": b.Why})
 		}
 	}
 
+	fmt.Printf("section chain-specs %6.2fs\n", time.Since(tC).Seconds()) // diagnostics only
+	// ---- chain level, histories: forged chains built from parts of honest chains the process verifies before / after
+	verifier2, err := p2ptls.NewIdentity(pool[3].Priv)
+	if err != nil {
+		t.Fatal(err)
+	}
+	r.Begin("chain histories")
+	tH := time.Now()
+	chainHistories(r, pool, []*p2ptls.Identity{verifier, verifier2}, r.N(48, 1500))
+	fmt.Printf("section chain-histories %6.2fs\n", time.Since(tH).Seconds()) // diagnostics only
+
 	// ---- transport level
 	tcs := transportCases(r, pool, r.N(1, 4))
+	// development knob (not used by bin/check): run only the matching transport cases
+	if only := os.Getenv("VERIF_C03_ONLY"); only != "" {
+		var sel []tcase
+		for _, tc := range tcs {
+			if strings.Contains(tc.name, only) {
+				sel = append(sel, tc)
+			}
+		}
+		tcs = sel
+	}
 	r.Extra("transport_cases", len(tcs))
 	sem := make(chan struct{}, 12)
 	var wg sync.WaitGroup
